@@ -18,6 +18,8 @@ proved, for all histories and without bounds:
   establish heap order, `Pop`/`Remove 0`/`Clear` preserve it, so on every history without `Add`
   and interior `Remove` `Front`/`Pop` return a minimal held element and draining is non-decreasing.
 * `sort_correct`: `heapq.Sort` leaves a sorted permutation (it only uses `NewWithData` + `Pop`).
+* `C05_full`: for the *repaired* configuration (`parent i = (i-1)/2`, sift-up in `pop`) the ordering
+  claim holds on every history — F1 and F2 are the only obstacles.
 * `C05_current`: the configuration regenerated from heapq.go (`Gen.Heapq`) **is** the pinned one;
   the corollaries `*_current` instantiate the theorems at `Drv.C05.cfg`, which the driver runs.
 -/
@@ -191,12 +193,8 @@ def allowedOp : Op α → Bool
   | .remove (_ + 1) => false
   | _ => true
 
-section Order
-variable {cfg : Cfg} (hs : CfgStd cfg) {lt : α → α → Bool} (ho : OrderOK lt)
-include hs ho
-
 /-- `NewWithData`, `Set`, `Reorder` (and `Clear`) **establish** heap order, whatever was there -/
-theorem C05_establish (s : S α) :
+theorem C05_establish {cfg : Cfg} (hl : CfgLayout cfg) {lt : α → α → Bool} (ho : OrderOK lt) (s : S α) :
     (∀ vs rev, let s' := (step cfg lt s (.newWithData vs rev)).1; HeapOK (s'.lt lt) s'.h.data) ∧
     (∀ vs, let s' := (step cfg lt s (.set vs)).1; HeapOK (s'.lt lt) s'.h.data) ∧
     (∀ rev, let s' := (step cfg lt s (.reorder rev)).1; HeapOK (s'.lt lt) s'.h.data) ∧
@@ -205,20 +203,113 @@ theorem C05_establish (s : S α) :
   · let s' : S α := { h := { data := [], log := s.h.log }, rev := rev }
     show HeapOK (s'.lt lt) (newWithData cfg (s'.lt lt) vs).data
     rw [heapOK_iff]
-    exact heapify_heap hs.toCfgLayout (orderOK_dir ho s') _ _ (hs.start_ge _)
+    exact heapify_heap hl (orderOK_dir ho s') _ _ (hl.start_ge _)
   · show HeapOK (s.lt lt) (Model.Heapq.set cfg (s.lt lt) s.h vs).data
     rw [heapOK_iff]
     simp only [Model.Heapq.set]
     split
     · rename_i e; intro k _ c _ hcl; simp [H.len, e] at hcl
     · rename_i n e
-      exact setLoop_heap hs.toCfgLayout (orderOK_dir ho s) _ n (by simp [H.len, e])
+      exact setLoop_heap hl (orderOK_dir ho s) _ n (by simp [H.len, e])
   · let s' : S α := { s with rev := rev }
     show HeapOK (s'.lt lt) (reorder cfg (s'.lt lt) s'.h).data
     rw [heapOK_iff]
-    exact heapify_heap hs.toCfgLayout (orderOK_dir ho s') _ _ (hs.start_ge _)
+    exact heapify_heap hl (orderOK_dir ho s') _ _ (hl.start_ge _)
   · show HeapOK _ ([] : List α)
     intro i; exact ⟨fun h => absurd h (by simp), fun h => absurd h (by simp)⟩
+
+/-- what the drain lemmas need of `Pop`: it keeps heap order, and the popped root plus the rest is
+what was there -/
+structure PopOK (cfg : Cfg) (lt : α → α → Bool) : Prop where
+  pres : ∀ s : S α, HeapOK (s.lt lt) s.h.data → HeapOK (s.lt lt) (pop cfg (s.lt lt) s.h 0).1.data
+  perm : ∀ s : S α, 0 < s.h.len → (s.h.get 0 :: (pop cfg (s.lt lt) s.h 0).1.data).Perm s.h.data
+
+/-- in heap order, `Front` and `Pop` return one and the same held element, minimal under the current
+comparison among the elements currently held -/
+theorem front_pop_min {cfg : Cfg} {lt : α → α → Bool} (ho : OrderOK lt) (s : S α)
+    (hh : HeapOK (s.lt lt) s.h.data) (hne : s.h.data ≠ []) :
+    ∃ v, step cfg lt s .front = (s, .val v) ∧ (step cfg lt s .pop).2 = .opt (some v) ∧
+      v ∈ s.h.data ∧ ∀ x ∈ s.h.data, s.lt lt x v = false := by
+  have hpos : 0 < s.h.len := List.length_pos_iff.mpr hne
+  refine ⟨s.h.get 0, rfl, ?_, get_mem s.h 0 hpos, ?_⟩
+  · simp only [step, if_neg (Nat.ne_of_gt hpos)]
+    exact congrArg (fun v => Out.opt (some v)) (pop_out cfg (s.lt lt) s.h 0)
+  · exact heap_root_min_mem (orderOK_dir ho s) s.h ((heapOK_iff _ _).mp hh)
+
+/-- draining: `Pop` until empty (at most `fuel` times) -/
+def drain (cfg : Cfg) (lt : α → α → Bool) : Nat → S α → List α
+  | 0, _ => []
+  | f + 1, s =>
+    match (step cfg lt s .pop).2 with
+    | .opt (some v) => v :: drain cfg lt f (step cfg lt s .pop).1
+    | _ => []
+
+/-- draining a heap yields a non-decreasing sequence of held elements … -/
+theorem drain_sorted {cfg : Cfg} {lt : α → α → Bool} (ho : OrderOK lt) (hp : PopOK (α := α) cfg lt)
+    (f : Nat) (s : S α) (hh : HeapOK (s.lt lt) s.h.data) :
+    (drain cfg lt f s).Pairwise (fun a b => s.lt lt b a = false) ∧
+    ∀ v ∈ drain cfg lt f s, v ∈ s.h.data := by
+  induction f generalizing s with
+  | zero => exact ⟨List.Pairwise.nil, fun v hv => by simp [drain] at hv⟩
+  | succ f ih =>
+    by_cases hne : s.h.data = []
+    · have h0 : s.h.len = 0 := by simp [H.len, hne]
+      have : drain cfg lt (f + 1) s = [] := by simp [drain, step, h0]
+      rw [this]; exact ⟨List.Pairwise.nil, fun v hv => by simp at hv⟩
+    · obtain ⟨v, _, hpop, hv, hmin⟩ := front_pop_min (cfg := cfg) ho s hh hne
+      have hpos : 0 < s.h.len := List.length_pos_iff.mpr hne
+      have hd : drain cfg lt (f + 1) s = v :: drain cfg lt f (step cfg lt s .pop).1 := by
+        simp only [drain, hpop]
+      have hperm := hp.perm s hpos
+      have hstate : (step cfg lt s .pop).1 = { s with h := (pop cfg (s.lt lt) s.h 0).1 } := by
+        simp only [step, if_neg (Nat.ne_of_gt hpos)]
+      have hsub : ∀ x ∈ (step cfg lt s .pop).1.h.data, x ∈ s.h.data := by
+        rw [hstate]; exact fun x hx => hperm.subset (List.mem_cons_of_mem _ hx)
+      have := ih (step cfg lt s .pop).1 (by rw [hstate]; exact hp.pres s hh)
+      have hlt : (step cfg lt s .pop).1.lt lt = s.lt lt := by rw [hstate]; rfl
+      rw [hlt] at this
+      rw [hd]
+      refine ⟨List.pairwise_cons.mpr ⟨fun b hb => hmin b (hsub b (this.2 b hb)), this.1⟩, ?_⟩
+      intro x hx
+      rcases List.mem_cons.mp hx with rfl | hx
+      · exact hv
+      · exact hsub x (this.2 x hx)
+
+/-- … and, given enough fuel, all of them -/
+theorem drain_perm {cfg : Cfg} {lt : α → α → Bool} (hp : PopOK (α := α) cfg lt) (f : Nat) (s : S α)
+    (hf : s.h.len ≤ f) : (drain cfg lt f s).Perm s.h.data := by
+  induction f generalizing s with
+  | zero =>
+    have : s.h.data = [] := List.length_eq_zero_iff.mp (by simp only [H.len] at hf; omega)
+    rw [this]; exact Perm.refl _
+  | succ f ih =>
+    by_cases h0 : s.h.len = 0
+    · have hd : s.h.data = [] := List.length_eq_zero_iff.mp h0
+      have : drain cfg lt (f + 1) s = [] := by simp [drain, step, h0]
+      rw [this, hd]
+    · have hpos : 0 < s.h.len := Nat.pos_of_ne_zero h0
+      have hpop : (step cfg lt s .pop).2 = .opt (some (s.h.get 0)) := by
+        simp only [step, if_neg h0]
+        exact congrArg (fun v => Out.opt (some v)) (pop_out cfg (s.lt lt) s.h 0)
+      have hd : drain cfg lt (f + 1) s = s.h.get 0 :: drain cfg lt f (step cfg lt s .pop).1 := by
+        simp only [drain, hpop]
+      have hstate : (step cfg lt s .pop).1 = { s with h := (pop cfg (s.lt lt) s.h 0).1 } := by
+        simp only [step, if_neg h0]
+      have hperm := hp.perm s hpos
+      have hlen : (step cfg lt s .pop).1.h.len ≤ f := by
+        rw [hstate]
+        have := hperm.length_eq
+        simp only [H.len, List.length_cons] at this hf ⊢; omega
+      rw [hd]
+      refine ((ih _ hlen).cons _).trans ?_
+      rw [hstate]; exact hperm
+
+def runS (cfg : Cfg) (lt : α → α → Bool) (s : S α) (ops : List (Op α)) : S α :=
+  ops.foldl (fun s op => (step cfg lt s op).1) s
+
+section Order
+variable {cfg : Cfg} (hs : CfgStd cfg) {lt : α → α → Bool} (ho : OrderOK lt)
+include hs ho
 
 /-- `Pop` and `Remove(0)` **preserve** heap order -/
 theorem C05_pop_preserves (s : S α) (hh : HeapOK (s.lt lt) s.h.data) :
@@ -246,95 +337,19 @@ theorem step_heapOK (s : S α) (op : Op α) (ha : allowedOp op = true)
     cases i with
     | zero => exact (C05_pop_preserves hs ho s hh).2
     | succ i => simp [allowedOp] at ha
-  | set vs => exact (C05_establish hs ho s).2.1 vs
-  | reorder rev => exact (C05_establish hs ho s).2.2.1 rev
-  | clear => exact (C05_establish hs ho s).2.2.2
-  | newWithData vs rev => exact (C05_establish hs ho s).1 vs rev
+  | set vs => exact (C05_establish hs.toCfgLayout ho s).2.1 vs
+  | reorder rev => exact (C05_establish hs.toCfgLayout ho s).2.2.1 rev
+  | clear => exact (C05_establish hs.toCfgLayout ho s).2.2.2
+  | newWithData vs rev => exact (C05_establish hs.toCfgLayout ho s).1 vs rev
   | front => exact hh
   | peek i => exact hh
   | len => exact hh
 
-omit hs in
-/-- in heap order, `Front` and `Pop` return a held element that is minimal under the current
-comparison among the elements currently held -/
-theorem front_pop_min (s : S α) (hh : HeapOK (s.lt lt) s.h.data) (hne : s.h.data ≠ []) :
-    ∃ v, step cfg lt s .front = (s, .val v) ∧ (step cfg lt s .pop).2 = .opt (some v) ∧
-      v ∈ s.h.data ∧ ∀ x ∈ s.h.data, s.lt lt x v = false := by
-  have hpos : 0 < s.h.len := List.length_pos_iff.mpr hne
-  refine ⟨s.h.get 0, rfl, ?_, get_mem s.h 0 hpos, ?_⟩
-  · simp only [step, if_neg (Nat.ne_of_gt hpos)]
-    exact congrArg (fun v => Out.opt (some v)) (pop_out cfg (s.lt lt) s.h 0)
-  · exact heap_root_min_mem (orderOK_dir ho s) s.h ((heapOK_iff _ _).mp hh)
-
-/-- draining: `Pop` until empty (at most `fuel` times) -/
-def drain (cfg : Cfg) (lt : α → α → Bool) : Nat → S α → List α
-  | 0, _ => []
-  | f + 1, s =>
-    match (step cfg lt s .pop).2 with
-    | .opt (some v) => v :: drain cfg lt f (step cfg lt s .pop).1
-    | _ => []
-
-/-- draining a heap yields a non-decreasing sequence of held elements … -/
-theorem drain_sorted (f : Nat) (s : S α) (hh : HeapOK (s.lt lt) s.h.data) :
-    (drain cfg lt f s).Pairwise (fun a b => s.lt lt b a = false) ∧
-    ∀ v ∈ drain cfg lt f s, v ∈ s.h.data := by
-  induction f generalizing s with
-  | zero => exact ⟨List.Pairwise.nil, fun v hv => by simp [drain] at hv⟩
-  | succ f ih =>
-    by_cases hne : s.h.data = []
-    · have h0 : s.h.len = 0 := by simp [H.len, hne]
-      have : drain cfg lt (f + 1) s = [] := by simp [drain, step, h0]
-      rw [this]; exact ⟨List.Pairwise.nil, fun v hv => by simp at hv⟩
-    · obtain ⟨v, _, hpop, hv, hmin⟩ := front_pop_min (cfg := cfg) ho s hh hne
-      have hpos : 0 < s.h.len := List.length_pos_iff.mpr hne
-      have hd : drain cfg lt (f + 1) s = v :: drain cfg lt f (step cfg lt s .pop).1 := by
-        simp only [drain, hpop]
-      have hperm := pop0_perm hs (s.lt lt) s.h hpos
-      have hstate : (step cfg lt s .pop).1 = { s with h := (pop cfg (s.lt lt) s.h 0).1 } := by
-        simp only [step, if_neg (Nat.ne_of_gt hpos)]
-      have hsub : ∀ x ∈ (step cfg lt s .pop).1.h.data, x ∈ s.h.data := by
-        rw [hstate]; exact fun x hx => hperm.subset (List.mem_cons_of_mem _ hx)
-      have := ih (step cfg lt s .pop).1 (C05_pop_preserves hs ho s hh).1
-      have hlt : (step cfg lt s .pop).1.lt lt = s.lt lt := by rw [hstate]; rfl
-      rw [hlt] at this
-      rw [hd]
-      refine ⟨List.pairwise_cons.mpr ⟨fun b hb => hmin b (hsub b (this.2 b hb)), this.1⟩, ?_⟩
-      intro x hx
-      rcases List.mem_cons.mp hx with rfl | hx
-      · exact hv
-      · exact hsub x (this.2 x hx)
-
-omit ho in
-/-- … and, given enough fuel, all of them -/
-theorem drain_perm (f : Nat) (s : S α) (hf : s.h.len ≤ f) : (drain cfg lt f s).Perm s.h.data := by
-  induction f generalizing s with
-  | zero =>
-    have : s.h.data = [] := List.length_eq_zero_iff.mp (by simp only [H.len] at hf; omega)
-    rw [this]; exact Perm.refl _
-  | succ f ih =>
-    by_cases h0 : s.h.len = 0
-    · have hd : s.h.data = [] := List.length_eq_zero_iff.mp h0
-      have : drain cfg lt (f + 1) s = [] := by simp [drain, step, h0]
-      rw [this, hd]
-    · have hpos : 0 < s.h.len := Nat.pos_of_ne_zero h0
-      have hpop : (step cfg lt s .pop).2 = .opt (some (s.h.get 0)) := by
-        simp only [step, if_neg h0]
-        exact congrArg (fun v => Out.opt (some v)) (pop_out cfg (s.lt lt) s.h 0)
-      have hd : drain cfg lt (f + 1) s = s.h.get 0 :: drain cfg lt f (step cfg lt s .pop).1 := by
-        simp only [drain, hpop]
-      have hstate : (step cfg lt s .pop).1 = { s with h := (pop cfg (s.lt lt) s.h 0).1 } := by
-        simp only [step, if_neg h0]
-      have hperm := pop0_perm hs (s.lt lt) s.h hpos
-      have hlen : (step cfg lt s .pop).1.h.len ≤ f := by
-        rw [hstate]
-        have := hperm.length_eq
-        simp only [H.len, List.length_cons] at this hf ⊢; omega
-      rw [hd]
-      refine ((ih _ hlen).cons _).trans ?_
-      rw [hstate]; exact hperm
-
-def runS (cfg : Cfg) (lt : α → α → Bool) (s : S α) (ops : List (Op α)) : S α :=
-  ops.foldl (fun s op => (step cfg lt s op).1) s
+theorem popOK_std : PopOK (α := α) cfg lt where
+  pres := fun s hh => by
+    rw [heapOK_iff] at hh ⊢
+    exact pop0_heap hs (orderOK_dir ho s) s.h hh
+  perm := fun s hpos => pop0_perm hs (s.lt lt) s.h hpos
 
 /-- **C05, the part that holds of the pinned code**: after every history over
 `NewWithData, Set, Reorder, Pop, Remove 0, Clear, Front, Peek, Len` (no `Add`, no interior
@@ -356,8 +371,8 @@ theorem C05_partial_order (ops : List (Op α)) (hall : ∀ op ∈ ops, allowedOp
     | cons op ops ih =>
       exact ih (fun o ho' => hall o (List.mem_cons_of_mem _ ho')) _
         (step_heapOK hs ho s0 op (hall op List.mem_cons_self) h0)
-  exact ⟨inv, front_pop_min (cfg := cfg) ho _ inv, fun f => (drain_sorted hs ho f _ inv).1,
-    drain_perm hs _ _ (Nat.le_refl _)⟩
+  exact ⟨inv, front_pop_min ho _ inv, fun f => (drain_sorted ho (popOK_std hs ho) f _ inv).1,
+    drain_perm (popOK_std hs ho) _ _ (Nat.le_refl _)⟩
 
 /-- **`heapq.Sort` leaves its argument a sorted permutation of the input** -/
 theorem sort_correct (vs : List α) :
@@ -470,22 +485,90 @@ theorem C05_findings_current :
     allPopsMinimal Drv.C05.cfg Drv.C05.ltKey {} f2Ops = false := by
   rw [cfg_eq_pinned]; exact ⟨C05_F1_witness, C05_F2_witness⟩
 
-/-! ## 5. `C05_full` (not proved; statement kept)
+/-! ## 5. `C05_full`: the whole ordering claim, for the repaired configuration
 
-For the repaired configuration the whole property would read
+`CfgRepaired`: standard child layout, `parent i = (i-1)/2`, and `pop(i)` sifts up when the moved
+element did not go down (guarded by `i < n`, see the model).  For it the ordering clause of C05
+holds on **every** history.  It is false for the pinned configuration (`C05_F1_witness`,
+`C05_F2_witness`).  This theorem says nothing about the current source (`C05_current` pins that);
+it records that the two findings are the only obstacles. -/
+section Full
+variable {cfg : Cfg} (hr : CfgRepaired cfg) {lt : α → α → Bool} (ho : OrderOK lt)
+include hr ho
 
-```
-theorem C05_full (cfg : Cfg) (hs : CfgStd' cfg)            -- as CfgStd, but
-    (hp : ∀ i, cfg.parent i = (i - 1) / 2) (hu : cfg.popSiftsUp = true)
-    {lt : α → α → Bool} (ho : OrderOK lt) (ops : List (Op α)) :   -- ALL operations
-    let s := runS cfg lt {} ops
-    HeapOK (s.lt lt) s.h.data ∧ (front/pop minimal, drain sorted as in C05_partial_order)
-```
+theorem popOK_repaired : PopOK (α := α) cfg lt where
+  pres := fun s hh => by
+    by_cases h0 : 0 < s.h.len
+    · rw [heapOK_iff] at hh ⊢
+      exact pop_heap hr (orderOK_dir ho s) s.h 0 h0 hh
+    · have hlen : s.h.len - 1 = 0 := by omega
+      rw [pop_eq, if_pos hlen]
+      intro i; exact ⟨fun h => absurd h (by simp), fun h => absurd h (by simp)⟩
+  perm := fun s hpos => by
+    have := pop_perm hr.ok (s.lt lt) s.h 0 hpos
+    rwa [pop_out] at this
 
-It is false for the pinned configuration (`C05_F1_witness`, `C05_F2_witness`).  Note that the model's
-`pop` with `popSiftsUp = true` starts `pushUp(i)` at `i = len` when the last slot is removed (an
-index panic in Go); a repair of the source must guard that call, and the model must then follow it.
--/
+/-- every operation keeps heap order (w.r.t. the comparison then installed) -/
+theorem step_heapOK_full (s : S α) (op : Op α) (hh : HeapOK (s.lt lt) s.h.data) :
+    HeapOK ((step cfg lt s op).1.lt lt) (step cfg lt s op).1.h.data := by
+  cases op with
+  | add v =>
+    show HeapOK (s.lt lt) (add cfg (s.lt lt) s.h v).1.data
+    rw [heapOK_iff] at hh ⊢
+    exact add_heap hr (orderOK_dir ho s) s.h v hh
+  | pop =>
+    simp only [step]; split
+    · exact hh
+    · show HeapOK (s.lt lt) (pop cfg (s.lt lt) s.h 0).1.data
+      rw [heapOK_iff] at hh ⊢
+      exact pop_heap hr (orderOK_dir ho s) s.h 0 (by omega) hh
+  | remove i =>
+    simp only [step]; split
+    · exact hh
+    · show HeapOK (s.lt lt) (pop cfg (s.lt lt) s.h i).1.data
+      rw [heapOK_iff] at hh ⊢
+      exact pop_heap hr (orderOK_dir ho s) s.h i (by omega) hh
+  | set vs => exact (C05_establish hr.toCfgLayout ho s).2.1 vs
+  | reorder rev => exact (C05_establish hr.toCfgLayout ho s).2.2.1 rev
+  | clear => exact (C05_establish hr.toCfgLayout ho s).2.2.2
+  | newWithData vs rev => exact (C05_establish hr.toCfgLayout ho s).1 vs rev
+  | front => exact hh
+  | peek i => exact hh
+  | len => exact hh
+
+/-- **C05 (ordering), repaired configuration**: after every history of `Add, Pop, Remove(i), Set,
+Reorder, Clear, NewWithData` (and the observers), in both comparison directions and with changes of
+comparison in mid-life: heap order holds, `Front` and `Pop` return a minimal held element, draining
+yields a non-decreasing sequence that is a permutation of what is held. -/
+theorem C05_full (ops : List (Op α)) (s0 : S α) (h0 : HeapOK (s0.lt lt) s0.h.data) :
+    let s := runS cfg lt s0 ops
+    HeapOK (s.lt lt) s.h.data ∧
+    (s.h.data ≠ [] → ∃ v, step cfg lt s .front = (s, .val v) ∧ (step cfg lt s .pop).2 = .opt (some v) ∧
+      v ∈ s.h.data ∧ ∀ x ∈ s.h.data, s.lt lt x v = false) ∧
+    (∀ f, (drain cfg lt f s).Pairwise (fun a b => s.lt lt b a = false)) ∧
+    (drain cfg lt s.h.len s).Perm s.h.data := by
+  have inv : HeapOK ((runS cfg lt s0 ops).lt lt) (runS cfg lt s0 ops).h.data := by
+    induction ops generalizing s0 with
+    | nil => exact h0
+    | cons op ops ih => exact ih _ (step_heapOK_full hr ho s0 op h0)
+  exact ⟨inv, front_pop_min ho _ inv, fun f => (drain_sorted ho (popOK_repaired hr ho) f _ inv).1,
+    drain_perm (popOK_repaired hr ho) _ _ (Nat.le_refl _)⟩
+
+end Full
+
+/-- the repaired configuration, written out -/
+def repaired : Cfg := { pinned with parent := fun i => (i - 1) / 2, popSiftsUp := true }
+
+theorem repaired_ok : CfgRepaired repaired where
+  left_eq := fun _ => rfl
+  right_eq := fun _ => rfl
+  start_ge := fun n => by simp only [repaired, pinned]; omega
+  parent_eq := fun _ => rfl
+  siftUp := rfl
+
+/-- non-vacuity: on the repaired configuration both witness histories (and removal of the last
+slot) pop only minimal elements -/
+example : allPopsMinimal repaired Drv.C05.ltKey {} (f1Ops ++ f2Ops ++ [.remove 6, .pop]) = true := by decide
 
 /-! ## non-vacuity -/
 
